@@ -285,6 +285,33 @@ PROPS = {
         "trusted_base": ["modelled, not verified: CommitPipeline (incl. the permit-with-batch flow control), tokio Semaphore semantics",
                          "the schedule controller (harness/src/sched.rs)"],
     },
+    "C19": {
+        "lean": ["Skv.Props.C19"],
+        "audit": "Skv/Audit/C19.lean",
+        "streams": [
+            {"name": "openers", "harness": "c19", "driver": "c19", "quick_cases": 250, "thorough_cases": 4000,
+             "nontrivial": lambda lines: any(l.startswith(("open", "spawn")) for l in lines[2:]) and
+                                          any("@" in l or l.startswith(("kill", "pexit", "drop")) for l in lines),
+             "judge": pattern_judge, "timeout": 1800},
+        ],
+        "rule": "up to four openers of one directory — threads of the harness process whose real TreeBuilder::build / Tree::close "
+                "calls are paused at the yield points inside open (after the lock, after manifest load, after recovery) and inside "
+                "close (after WAL close, after WAL clean-up, after directory sync, i.e. just before the release) while the others "
+                "try to open, and child processes that close cleanly, exit without closing or are SIGKILLed; every refused attempt "
+                "is checked for byte identity of the whole directory tree (names and contents, LOCK included); every call's trace of "
+                "lock-acquire / data-touch / lock-release events seen on its thread is compared with the model's program order; "
+                "puts and gets through the current owner check the data survives the hand-overs; non-trivial = a case with a "
+                "second opener attempt and a paused call or an abnormal end",
+        "assumptions": [
+            "flock(2) semantics are trusted (one exclusive holder per file; dropped on close of the description and on process death)",
+            "all openers of a case use the same Options (an opener with other options creates its missing sub-directories before the "
+            "lock is tried; not judged)",
+            "a dropped handle closes asynchronously: 'can be opened again' is judged after the spawned close() has finished",
+        ],
+        "trusted_base": ["modelled, not verified: the step order inside CoreInner::new / Core::new / Core::close (hand-written programs "
+                         "openProg / closeProg, compared with the yield-point trace of every call), LockFile::acquire/release",
+                         "the OS advisory lock"],
+    },
     "C15": {
         "lean": ["Skv.Props.C15"],
         "audit": "Skv/Audit/C15.lean",
